@@ -45,6 +45,7 @@ type Result struct {
 	Counters     map[string]int64 `json:"counters"`
 	Samples      []any            `json:"samples"`
 	Notes        []string         `json:"notes,omitempty"`
+	Inconclusive []string         `json:"inconclusive,omitempty"`
 	HashFile     string           `json:"hash_file"`
 	NHashes      int              `json:"n_hashes"`
 }
@@ -129,6 +130,7 @@ type Worker struct {
 	hashes   map[uint64]struct{}
 	samples  []any
 	notes    []string
+	incon    []string
 	cases    atomic.Int64
 	steps    atomic.Int64
 	oracle   atomic.Int32
@@ -201,7 +203,7 @@ func (w *Worker) Finish(blocks []int) error {
 		return err
 	}
 	res := Result{Prop: w.Prop, Flavour: w.Flavour, Blocks: blocks, Evaluations: w.evals, EnumDistinct: w.enum,
-		Counters: w.counters, Samples: w.samples, Notes: w.notes, HashFile: hf, NHashes: len(w.hashes)}
+		Counters: w.counters, Samples: w.samples, Notes: w.notes, Inconclusive: w.incon, HashFile: hf, NHashes: len(w.hashes)}
 	data, err := json.Marshal(res)
 	if err != nil {
 		return err
@@ -371,6 +373,19 @@ func (c *Ctx) Note(format string, args ...any) {
 	}
 	c.w.mu.Unlock()
 }
+
+// Inconclusive records a reason why this run cannot give a verdict (an oracle
+// timed out, an external tool is missing). It never counts as a violation.
+func (c *Ctx) Inconclusive(format string, args ...any) {
+	c.w.mu.Lock()
+	if len(c.w.incon) < 10 {
+		c.w.incon = append(c.w.incon, fmt.Sprintf(format, args...))
+	}
+	c.w.mu.Unlock()
+}
+
+// Replaying reports whether the worker re-executes a single recorded case.
+func (c *Ctx) Replaying() bool { return c.w.ReplayIndex >= 0 }
 
 func (c *Ctx) record(kind, known string, caseData any, detail string) {
 	v := Violation{Prop: c.Prop, Kind: kind, Flavour: c.Flavour, Tier: c.Tier, Seed: c.Seed,
